@@ -35,6 +35,12 @@ func init() {
 		ids2 := []string{"e1", "e2"}
 		wide := vWriteAlphabet(vDS, ids2, allPool(), poolIdx("v1", "v2", "dv1", "r2", "d", "v1pad", "dv2", "psa", "pas"), [][2]int{{0, 1}, {2, 0}, {0, 2}, {3, 3}})
 		narrow := vWriteAlphabet(vDS, ids2, narrowPool(), poolIdx("v1", "dv1", "v1pad"), [][2]int{{0, 2}, {2, 5}})
+		// writes the store has to refuse as a whole, carrying entities the later writes re-send
+		for _, c := range poolIdx("v1", "dv1") {
+			narrow = append(narrow, VOp{K: "badbatch", DS: "A", Ents: []VEnt{{"e1", c}, {"e2", c}}})
+			wide = append(wide, VOp{K: "badbatch", DS: "A", Ents: []VEnt{{"e1", c}, {"e2", c}}})
+		}
+		narrow = append(narrow, VOp{K: "badtxn", Parts: map[string][]VEnt{"A": {{"e1", poolIdx("v1")[0]}}, "B": {{"e2", poolIdx("v1")[0]}}}})
 		params := storeParams("c01", vDS, vIDs)
 		if r.Quick() {
 			engine.RunSeq(r, engine.SeqSpec{Name: "c01-wide", WorkerArgs: []string{"worker", "store"}, Alphabet: vOpsJSON(wide), Params: params, Depth: 2, Budget: 60 * time.Second})
@@ -62,6 +68,10 @@ func init() {
 		writes := vWriteAlphabet([]string{"A"}, ids2, poolIdx("v1", "v2", "dv1", "r2", "dv2"), poolIdx("v1", "v2", "dv1", "dv2"), nil)
 		writes = append(writes, VOp{K: "batch", DS: "A", Ents: []VEnt{{"e1", 0}, {"e2", 0}, {"e1", 1}}})
 		writes = append(writes, VOp{K: "batch", DS: "B", Ents: []VEnt{{"e1", 0}}})
+		// transactions (the other write path) and writes the store refuses as a whole
+		writes = append(writes, VOp{K: "txn", Parts: map[string][]VEnt{"A": {{"e2", poolIdx("v2")[0]}}, "B": {{"e1", poolIdx("v2")[0]}}}})
+		writes = append(writes, VOp{K: "badbatch", DS: "A", Ents: []VEnt{{"e1", poolIdx("v2")[0]}, {"e2", poolIdx("v1")[0]}}})
+		writes = append(writes, VOp{K: "badtxn", Parts: map[string][]VEnt{"A": {{"e1", poolIdx("dv1")[0]}}, "B": {{"e1", poolIdx("v2")[0]}}}})
 		var reads []VOp
 		for _, l := range []int{0, 1, 2} {
 			reads = append(reads, VOp{K: "read", R: "r1", DS: "A", L: l})
